@@ -254,3 +254,32 @@ PROPS["C04"] = dict(
     assumptions=["C04_late: the late EOF's file size is not below the end of the data held (true of any retransmission of the original EOF)"],
     unproved=["the daemon-level part (a PDU for an already ended transaction spawning a fresh receive transaction) is C11"],
 )
+
+PROPS["C18"] = dict(
+    title="Unacknowledged mode is one-way unless closure is requested; closure works",
+    module="Cfdp.Props.C18",
+    namespace="Cfdp.Loop",
+    theorems=["C18_recv_oneway", "C18_recv_silent_without_closure", "C18_complete_means_complete",
+              "Cfdp.Send.C18_send_ends_on_eof", "Cfdp.Send.C18_send_waits", "Cfdp.Send.C18_send_reports_outcome",
+              "Cfdp.Send.C18_send_ignores_finished_without_closure"],
+    engines=["recv", "send"],
+    design="§6 C18",
+    technique="Lean 4 invariant proofs over all event histories of the receiver model, step theorems on the sender model + differential correspondence",
+    level_text=("Kernel-checked: for an unacknowledged receiver, over every history of loop events (any PDUs incl. prompts, in any order, timer wake-ups, send opportunities, "
+                "cancel/suspend/resume) every transmitted PDU is a Finished PDU - never ACK, NAK or keep-alive (C18_recv_oneway, invariant UQ: nothing queued, NAK "
+                "counter never started, a Finished record only under closure) - and nothing at all is transmitted unless a Metadata PDU asked for closure "
+                "(C18_recv_silent_without_closure); in both modes and for every fault-handler configuration, in the iteration in which the delivery code becomes "
+                "Complete the metadata is present and for a file transfer the EOF has arrived and the segment list covers [0, size) (C18_complete_means_complete, with C09's "
+                "isComplete_iff); the sender without closure is Terminated by transmitting its EOF and tells the user (C18_send_ends_on_eof), with closure no "
+                "transmission ends it (C18_send_waits) and the Finished PDU ends it with the receiver's condition and delivery code in the user's Finished indication "
+                "(C18_send_reports_outcome); without closure a Finished PDU is rejected as unexpected. Tie to the code: recv/send engines; oracles recv_silent_link, "
+                "complete_without_data, delivery_code_complete_without_data, send_shape, closure_wait, no_closure_end."),
+    level_note=RECV_SEND_NOTE + " 'The sender transmits metadata, the file data once and EOF' is C07's first-pass statement (send engine oracle send_shape); "
+               "that the sender waits 'up to its limits' is C17.",
+    rule=("recv engine: one history in three is unacknowledged (closure on/off, fault handlers incl. ignore/abandon/suspend for CheckLimitReached), losses of metadata / data / EOF, "
+          "prompts, duplicates, wrong checksums, short EOFs, rejected destinations; send engine: unacknowledged histories with and without closure, Finished PDUs with every outcome, "
+          "stray NAK/ACK/keep-alive PDUs. Non-trivial = a PDU was emitted or an indication raised."),
+    assumptions=[],
+    unproved=["the sender's transmission sequence metadata - data once - EOF as a whole-history statement (oracle send_shape; per-PDU truthfulness is C07)",
+              "a cancelled unacknowledged receiver with closure prepares a Finished PDU but terminates before sending it (observed in the model and the code; see DESIGN.md, C10)"],
+)
